@@ -218,6 +218,52 @@ def runResourceRdFb (c : Nat) (s : ResR) (evs : List String) (acc : List String)
       let s'' := if delivered && s'.res.dep != c then rrStep s' (.ev (.write c)) else s'
       runResourceRdFb c s'' es (acc ++ [showResR s''])
 
+/-- `resourcerdt`: some reader boundaries (event `v`) also have a suspense task of their own (completed by `t<i>`): such a
+boundary is loading while that task is pending OR the resource holds a guard for it (the boundary rule: its counter counts
+both). The tasks are kept beside the machine, aligned with its reader list: `some i` = task `i` is pending -/
+def runResourceRdT (s : ResR) (tasks : List (Option Nat)) (nv : Nat) (evs : List String) (acc : List String) : List String :=
+  let showT (s : ResR) (tasks : List (Option Nat)) : String :=
+    showRes s.res s.alive ++ " B=[" ++ ",".intercalate ((List.zip s.readers tasks).map fun (r, t) => if r.guard || t.isSome then "1" else "0") ++ "]"
+  match evs with
+  | [] => acc
+  | e :: es =>
+    if e.startsWith "t" then
+      match (e.drop 1).toString.toNat? with
+      | none => acc ++ ["bad-op"]
+      | some i =>
+        let tasks' := tasks.map fun t => if t == some i then none else t
+        runResourceRdT s tasks' nv es (acc ++ [showT s tasks'])
+    else
+    let (ev, isV) := if e == "v" then (some RREv.read, true) else (rrEv e, false)
+    match ev with
+    | none => acc ++ ["bad-op"]
+    | some ev =>
+      let s' := rrStep s ev
+      let grew := s'.readers.length > s.readers.length
+      let tasks' := match ev with
+        | .read => if grew then tasks ++ [if isV then some nv else none] else tasks
+        | .dropOldest => tasks.tail
+        | _ => tasks
+      let nv' := if isV && grew then nv + 1 else nv
+      runResourceRdT s' tasks' nv' es (acc ++ [showT s' tasks'])
+
+/-- `resourcerdw`: readers observed, and the observer of every reader boundary writes the dependency (to `c`, once it differs)
+when its boundary resolves: a delivery that releases at least one boundary is followed by that write -/
+def runResourceRdW (c : Nat) (s : ResR) (evs : List String) (acc : List String) : List String :=
+  match evs with
+  | [] => acc
+  | e :: es =>
+    match rrEv e with
+    | none => acc ++ ["bad-op"]
+    | some ev =>
+      let s' := rrStep s ev
+      let delivered := match ev with
+        | .ev (.finish k) => s.alive && k = s.res.started && !s.res.completedLatest
+        | _ => false
+      let released := s.readers.any (·.guard)
+      let s'' := if delivered && released && s'.res.dep != c then rrStep s' (.ev (.write c)) else s'
+      runResourceRdW c s'' es (acc ++ [showResR s''])
+
 /-- `resourcerdfx`: readers observed, and a subscriber of the value that disposes the owner of the resource from
 inside a delivery -/
 def runResourceRdFx (s : ResR) (evs : List String) (acc : List String) : List String :=
@@ -241,6 +287,14 @@ def handle (line : String) : String :=
     match d.toNat? with
     | some d => " | ".intercalate (runResourceRdFx (ResR.init d) (if evs == "-" then [] else evs.splitOn ",") [showResR (ResR.init d)])
     | none => "bad-op"
+  | "resourcerdt" :: d :: evs :: [] =>
+    match d.toNat? with
+    | some d => " | ".intercalate (runResourceRdT (ResR.init d) [] 0 (if evs == "-" then [] else evs.splitOn ",") [showResR (ResR.init d)])
+    | none => "bad-op"
+  | "resourcerdw" :: d :: c :: evs :: [] =>
+    match d.toNat?, c.toNat? with
+    | some d, some c => " | ".intercalate (runResourceRdW c (ResR.init d) (if evs == "-" then [] else evs.splitOn ",") [showResR (ResR.init d)])
+    | _, _ => "bad-op"
   | "resourcerdfb" :: d :: c :: evs :: [] =>
     match d.toNat?, c.toNat? with
     | some d, some c => " | ".intercalate (runResourceRdFb c (ResR.init d) (if evs == "-" then [] else evs.splitOn ",") [showResR (ResR.init d)])
